@@ -340,6 +340,41 @@ func (e *effEngine) classify1(v ssa.Value) (class, string) {
 			}
 		case *ssa.FieldAddr:
 			fv := fieldVar(a.X.Type(), a.Field)
+			// a field of an object this function has just allocated and fills field by field (no whole-struct
+			// copy into it): the loaded value is whatever this function stored into that field
+			if al, fresh := a.X.(*ssa.Alloc); fresh {
+				whole := false
+				var vals []ssa.Value
+				for _, ref := range *al.Referrers() {
+					switch y := ref.(type) {
+					case *ssa.Store:
+						if y.Addr == ssa.Value(al) {
+							whole = true
+						}
+					case *ssa.FieldAddr:
+						if y.Field != a.Field {
+							continue
+						}
+						for _, r2 := range *y.Referrers() {
+							if st, isSt := r2.(*ssa.Store); isSt && st.Addr == ssa.Value(y) {
+								vals = append(vals, st.Val)
+							}
+						}
+					}
+				}
+				if !whole {
+					res := cLocal
+					why := "field of an object allocated here (zero or locally stored value)"
+					for _, sv := range vals {
+						c, w := e.classify(sv)
+						if c != cLocal {
+							why = w
+						}
+						res = join(res, c)
+					}
+					return res, why
+				}
+			}
 			if why, ok := e.ctxAlias[fv]; ok {
 				return cShared, "Context." + fv.Name() + " may hold shared memory (" + why + ")"
 			}
